@@ -252,6 +252,7 @@ func supplyOracle(s *Scn) {
 			verif.Reach("success", ok)
 		}
 	}
+	verif.Reach("success", ok)
 	verif.ObserveBool("ok", ok)
 }
 
@@ -409,6 +410,26 @@ func metaOf(s *Scn, buf []byte) *esdt.MetaData {
 
 // invCheck is C15: Inv is asserted by the world on every logged write (world.assertInv).
 func invCheck(s *Scn) {
+	if s.Name == "ESDTSetRole" {
+		// system-contract discipline: the roles being set are pairwise distinct and not already held
+		newRoles := s.In.Arguments[1:]
+		s.W.RoleDiscipline = func(old [][]byte) bool {
+			ok := true
+			for i := range newRoles {
+				for j := i + 1; j < len(newRoles); j++ {
+					if len(newRoles[i]) == len(newRoles[j]) {
+						ok = verif.And(ok, !verif.BytesEq(newRoles[i], newRoles[j]))
+					}
+				}
+				for _, o := range old {
+					if len(o) == len(newRoles[i]) {
+						ok = verif.And(ok, !verif.BytesEq(o, newRoles[i]))
+					}
+				}
+			}
+			return ok
+		}
+	}
 	s.Run()
 	verif.Reach("success", s.Err == nil)
 	verif.Reach("wrote-something", len(s.W.Log) > 0)
